@@ -155,21 +155,45 @@ def big_cases(tier, seed):
         add("edits-refblk", {"kind": "edits", "seed": rnd.randrange(1 << 30), "size": size, "edits": edits}, blk=blk)
         add("weakcoll", {"kind": "weakcoll", "seed": rnd.randrange(1 << 30), "size": blk * 8 + rnd.randrange(blk), "p": blk}, blk=blk, s2=rnd.choice([16, 16, 2, 0]))
         add("dupblocks", {"kind": "dupblocks", "seed": rnd.randrange(1 << 30), "size": blk * 6 + rnd.randrange(blk), "tsize": blk * 7 + rnd.randrange(blk), "p": blk}, blk=blk)
+        add("collpool", {"kind": "collpool", "seed": rnd.randrange(1 << 30), "size": rnd.randrange(4, 14), "tsize": rnd.randrange(4, 16), "p": rnd.choice([3, 8, 700, blk])}, blk=-1)
         if size % blk != 0 and size > 3 * blk:
             add("remreuse", {"kind": "remreuse", "seed": rnd.randrange(1 << 30), "size": size, "p": blk}, blk=blk)
     return cases
 
 
-def run_and_validate(w, scen, label, v, counts, confirm=True):
+def flatten(rows):
+    out = []
+    for o in rows:
+        if "multi" in o:
+            out.extend(o["multi"])
+        elif "toks" in o and "id" in o:
+            out.append(o)
+        else:
+            scn = o.get("scn") or {}
+            subs = scn.get("session") or [scn]
+            for sub in subs:
+                out.append(normalise(dict(o, scn=sub)))
+    return out
+
+
+def to_lines(scen, session):
+    """Group scenarios into sender sessions of `session` files each (1 = one file per session)."""
+    if session <= 1:
+        return list(scen)
+    return [{"session": scen[i:i + session]} for i in range(0, len(scen), session)]
+
+
+def run_and_validate(w, scen, label, v, counts, confirm=True, session=1, first_id=1):
     """Replay scenarios on the real sender, validate traces with TLC, confirm
     rejections by re-running them, record confirmed violations."""
     for i, s in enumerate(scen):
-        s["id"] = i + 1
+        s["id"] = first_id + i
     sf = w.path("scen-%s.ndjson" % label)
     of = w.path("obs-%s.ndjson" % label)
-    write_ndjson(sf, scen)
+    lines = to_lines(scen, session)
+    write_ndjson(sf, lines)
     summ = w.run_harness("delta", sf, of)
-    obs = [normalise(o) for o in read_ndjson(of)]
+    obs = flatten(read_ndjson(of))
     if len(obs) != len(scen):
         raise Broken("harness returned %d observations for %d scenarios" % (len(obs), len(scen)))
     harness_broken = [o for o in obs if o["err"].startswith("HARNESS")]
@@ -179,25 +203,30 @@ def run_and_validate(w, scen, label, v, counts, confirm=True):
     counts["traces"] += len(obs)
     counts["trace_states"] += dist
     counts["trace_transitions"] += gen
-    byid = {o["id"]: o for o in obs}
     if rej and confirm:
-        # confirm on the real code: re-run exactly the rejected scenarios
-        again = [dict(byid[i]["scn"]) for i in sorted(rej) if i in byid]
-        for s in again:
-            s["id"] = s["id"]
+        # confirm on the real code: re-run exactly the sessions containing rejected scenarios
+        again = [ln for ln in lines if any(s["id"] in rej for s in (ln.get("session") or [ln]))]
         sf2, of2 = w.path("scen-%s-confirm.ndjson" % label), w.path("obs-%s-confirm.ndjson" % label)
         write_ndjson(sf2, again)
         w.run_harness("delta", sf2, of2)
-        obs2 = [normalise(o) for o in read_ndjson(of2)]
+        obs2 = flatten(read_ndjson(of2))
         rej2, _, _, where2 = validate(w, obs2, label + "-confirm")
         unconfirmed = set(rej) - set(rej2)
         if unconfirmed:
             raise Broken("rejections not reproduced on re-run (flaky harness?): ids %s" % sorted(unconfirmed)[:10])
+        sess_of = {}
+        for ln in again:
+            for sub in (ln.get("session") or [ln]):
+                sess_of[sub["id"]] = ln
         for o in obs2:
-            if o["id"] in rej2:
-                detail = {"scenario": o["scn"], "first_unexplained_event": where2.get(o["id"]),
-                          "observed": {k: o[k] for k in ("err", "ended", "sumok", "idxok", "hdrok", "tlen", "blk", "s2", "count", "lit")},
+            if o["id"] in rej2 and o["id"] in rej:
+                detail = {"scenario": o["scn"], "session": sess_of.get(o["id"]) if session > 1 else None,
+                          "first_unexplained_event": where2.get(o["id"]),
+                          "observed": {k: o[k] for k in ("err", "ended", "sumok", "idxok", "hdrok", "tlen", "blk", "s2", "count", "lit", "bounded", "inserted", "nedits")},
                           "tokens": o["toks"][:40],
-                          "rerun": "rsverif run delta (scenario above)"}
-                v.violation(signature(o), detail)
+                          "rerun": "rsverif run delta (scenario/session above)"}
+                sig = signature(o)
+                if session > 1:
+                    sig["in_session"] = True
+                v.violation(sig, detail)
     return obs, rej, summ
